@@ -3,76 +3,236 @@ C12 — Instance startup profile: how many instances start, when, and with which
 
 The theorems are about the transition system `Pandora.Model.C12` (`startInstances` around the startup `Waiter` of C04, the
 cancel sources of the start context, run cancel, creation failure, instances finishing), for ALL startup token sequences
-`all : List Int`, BOTH variants of the Waiter (`v`) and ALL finite interleavings of events `evs : List Event` — events that
-are not enabled in a state are no-ops, so every list is an interleaving.  `C12_instance_step_shape` is about the
-REGENERATED `schedule.NewInstanceStep` (`Pandora.Gen.Schedule`).  The model is tied to the engine by the real-time
-correspondence run (harness/cmd/c12).
+`all : List Int`, ALL configurations `c : Cfg` (both variants of the Waiter, shared and per-instance RPS schedule) and ALL
+finite interleavings of events `evs : List Event` — events that are not enabled in a state are no-ops, so every list is an
+interleaving; a `Wait` call that sleeps is two events (`wait`, then `timerFire` or `wakeCancelled`) with anything in
+between, so a cancellation may arrive before, during and after every call.
+
+Tie to the source (checked on every run):
+* `C12_refines_source`, `C12_wiring_is_source`, `C12_instance_loop_is_source`, `C12_wait_is_source`: the sequential
+  program the transition system refines, the cancel wiring, the loop of `instance.Run` and `Waiter.Wait` are the
+  definitions REGENERATED from /repo (`Pandora.Gen.Startup`, `Pandora.Gen.Waiter`);
+* `C12_instance_step_shape`, `C12_composite_example` are about the REGENERATED `schedule.NewInstanceStep` / `NewOnce` /
+  `NewConst` (`Pandora.Gen.Schedule`);
+* the real-time correspondence run (harness/cmd/c12) replays what the real engine did through `Model.C12.run`.
 -/
 import Pandora.Proofs.C12
 import Pandora.Proofs.C12Shape
+import Pandora.Bridge.C12Startup
+import Pandora.Bridge.Waiter
 
 namespace Pandora.Props.C12
-open Pandora.Model.C04 Pandora.Model.C12 Pandora.Proofs.C04 Pandora.Proofs.C12
+open Pandora.Model.C04 Pandora.Model.C12 Pandora.Proofs.C04 Pandora.Proofs.C12 Pandora.Go.C12
 
-/-- Ids: in every reachable state the instances created so far carry the ids 0, 1, …, k−1 in creation order (distinct,
-consecutive from 0), and k is the `started` counter the loop reports. -/
-theorem C12_ids (v : Variant) (all : List Int) (evs : List Event) :
-    let s := run v (St.init all) evs
+/-! ### clause 2 — ids -/
+
+/-- Ids: in every reachable state the instances the loop has tried to create so far carry the ids 0, 1, …, k−1 in
+creation order (distinct, consecutive from 0), k is the `started` counter the loop reports, and it never exceeds the
+number of tokens of the profile.  (A creation that fails in its goroutine has consumed its id; see `C12_ids_started`.) -/
+theorem C12_ids (c : Cfg) (all : List Int) (evs : List Event) :
+    let s := run c (St.init all) evs
     s.created.map (·.id) = List.range s.created.length ∧ s.started = s.created.length ∧
-      (s.created.map (·.id)).Nodup := by
-  have h := run_inv v all (St.init all) evs (Inv.init all)
-  refine ⟨h.ids, h.started, ?_⟩
-  rw [h.ids]
-  exact List.nodup_range
+      (s.created.map (·.id)).Nodup ∧ s.started ≤ all.length := by
+  have h := run_inv c all (St.init all) evs (Inv.init c all)
+  refine ⟨h.ids, h.started, ?_, ?_⟩
+  · rw [h.ids]
+    exact List.nodup_range
+  · rcases h.cons with hc | ⟨_, hc⟩ <;> have := h.bound <;> omega
+
+/-- …and as long as no creation has failed, every one of them is a started instance: the ids of the STARTED instances
+are exactly 0, …, k−1, and the running instances are among them. -/
+theorem C12_ids_started (c : Cfg) (all : List Int) (evs : List Event) :
+    let s := run c (St.init all) evs
+    (s.sawCreateFailed = false → ∀ cr ∈ s.created, cr.ok = true) ∧
+      (∀ id ∈ s.running, ∃ cr ∈ s.created, cr.id = id ∧ cr.ok = true) := by
+  have h := run_inv c all (St.init all) evs (Inv.init c all)
+  exact ⟨h.failed, h.running⟩
+
+/-! ### clause 1 — never ahead of the profile -/
 
 /-- Never ahead of the profile: under the clock hypotheses of C04 for the `Wait` calls of the startup waiter, the
-instance with id j is created at an instant ≥ the release time of token j (`all[j]`, = schedule start + t_j); in
-particular at any instant no more instances exist than the profile has released. -/
-theorem C12_not_ahead (v : Variant) (all : List Int) (evs : List Event)
+instance with id j is created at an instant ≥ the release time of token j (`all[j]`, = schedule start + t_j). -/
+theorem C12_not_ahead (c : Cfg) (all : List Int) (evs : List Event)
     (hclk : EventsClockOK (St.init all).waiter evs) :
-    ∀ c ∈ (run v (St.init all) evs).created, ∃ t, all[c.id]? = some t ∧ t ≤ c.instant :=
-  run_notAhead v all (St.init all) evs (Inv.init all) (by intro c hc; simp [St.init] at hc) hclk
+    ∀ cr ∈ (run c (St.init all) evs).created, ∃ t, all[cr.id]? = some t ∧ t ≤ cr.instant :=
+  run_notAhead c all (St.init all) evs (Inv.init c all) (by intro cr hc; simp [St.init] at hc)
+    (ClockInv.init all evs hclk)
 
-/-- The startup profile never reduces the number of running instances: no event other than an instance's own `Run`
-returning removes an instance from the running set — neither a step of the start loop (whatever its `Wait` returns) nor
-the cancellation of the START context by ammo exhaustion or by the end of the shared RPS profile; and an instance returns
-with a context error only when the RUN context is done. -/
-theorem C12_never_reduced (v : Variant) (s : St) (ev : Event) :
-    ((∀ id r, ev ≠ .instanceExit id r) → ∀ id ∈ s.running, id ∈ (step v s ev).running) ∧
-    (∀ id, s.runCtxDone = false → (step v s (.instanceExit id .cancelled)).running = s.running) := by
-  constructor
-  · intro hne id hid
-    cases ev with
-    | wait env createOk delay =>
-      show id ∈ (stepWait v s env createOk delay).running
-      unfold stepWait
-      dsimp only
-      (repeat' split) <;> simp [hid]
-    | outOfAmmoResult => exact hid
-    | rpsFinished => exact hid
-    | runCancel => exact hid
-    | instanceExit i r => exact absurd rfl (hne i r)
-  · intro id hrun
-    show (stepExit s id .cancelled).running = s.running
-    simp [stepExit, hrun]
+/-- …so at EVERY instant `T` at most as many instances exist as the profile has released tokens by `T`. -/
+theorem C12_count_not_ahead (c : Cfg) (all : List Int) (evs : List Event)
+    (hclk : EventsClockOK (St.init all).waiter evs) (T : Int) :
+    (((run c (St.init all) evs).created.filter (fun cr => decide (cr.instant ≤ T))).length ≤
+      (all.filter (fun t => decide (t ≤ T))).length) :=
+  count_le_of_notAhead all _ (C12_ids c all evs).1 (C12_not_ahead c all evs hclk) T
+
+/-! ### clause 3 — an instance, once started, is never stopped by the startup profile -/
+
+/-- The number of running instances is never reduced by the startup profile: an instance leaves the running set only
+by an event that is its OWN `Run` returning, and `Run` returns only because
+* its RPS profile is exhausted (`scheduleEnd`: with a shared profile only after that profile has reported its end),
+* the provider has no more ammo (`ammoEnd`),
+* `gun.Shoot` panicked (`error`), or
+* with a context error — and then the RUN context is done (`cancelled`).
+No step of the start loop (whatever its `Wait` answers, whenever it is woken) and no cancellation of the START context
+(out of ammo, shared RPS profile finished) removes an instance. -/
+theorem C12_never_reduced (c : Cfg) (s : St) (ev : Event) (id : Nat)
+    (hin : id ∈ s.running) (hout : id ∉ (step c s ev).running) :
+    ∃ r, ev = .instanceExit id r ∧ exitEnabled c s r = true ∧
+      (r = .cancelled → s.runCtxDone = true) ∧
+      (r = .scheduleEnd → c.perInstance = true ∨ s.sharedRpsDone = true) := by
+  cases ev with
+  | wait env createOk delay =>
+    exfalso; apply hout
+    show id ∈ (stepWait c s env createOk delay).running
+    unfold stepWait complete
+    dsimp only
+    (repeat' split) <;> simp [hin]
+  | timerFire =>
+    exfalso; apply hout
+    show id ∈ (stepFire c s).running
+    unfold stepFire complete
+    dsimp only
+    (repeat' split) <;> simp [hin]
+  | wakeCancelled =>
+    exfalso; apply hout
+    show id ∈ (stepWake c s).running
+    unfold stepWake complete
+    dsimp only
+    (repeat' split) <;> simp [hin]
+  | outOfAmmoResult =>
+    exfalso; apply hout
+    show id ∈ (if !s.ammoOut then s else _).running
+    split <;> exact hin
+  | rpsFinished =>
+    exfalso; apply hout
+    show id ∈ (if c.perInstance || !anyInstance s then s else _).running
+    split <;> exact hin
+  | runCancel => exact absurd hin hout
+  | instanceExit i r =>
+    have hstep : (step c s (.instanceExit i r)).running = (stepExit c s i r).running := rfl
+    rw [hstep] at hout
+    unfold stepExit at hout
+    by_cases hg : (!s.running.contains i || !exitEnabled c s r) = true
+    · rw [if_pos hg] at hout; exact absurd hin hout
+    · rw [if_neg hg] at hout
+      simp only [Bool.or_eq_true, Bool.not_eq_true', not_or, Bool.not_eq_false] at hg
+      have hi : i = id := by
+        by_cases hi : i = id
+        · exact hi
+        · exact absurd ((List.mem_erase_of_ne (Ne.symm hi)).mpr hin) hout
+      subst hi
+      refine ⟨r, rfl, hg.2, ?_, ?_⟩
+      · intro hr; subst hr; simpa [exitEnabled] using hg.2
+      · intro hr; subst hr; simpa [exitEnabled] using hg.2
+
+/-- …and in every reachable state the run context is done only if the RUN was cancelled (caller or pool failure) — never
+by ammo exhaustion or by the end of the RPS profile, which cancel the start context only; the shared RPS profile counts
+as finished only after its callback has run, which needs a shared profile and an instance that drew from it. -/
+theorem C12_run_ctx_only_by_run_cancel (c : Cfg) (all : List Int) (evs : List Event) :
+    let s := run c (St.init all) evs
+    (s.runCtxDone = true ↔ s.sawRunCancelled = true) ∧
+      (s.sharedRpsDone = true → c.perInstance = false ∧ anyInstance s = true) := by
+  have h := run_inv c all (St.init all) evs (Inv.init c all)
+  exact ⟨h.runCtx, h.rpsShared⟩
+
+/-! ### clause 4 — all tokens result in instances unless one of the four causes cut instance start short -/
 
 /-- All tokens of the profile result in instances unless instance start was cut short: when `startInstances` has
 returned with fewer instances than the profile has tokens, then ammo ran out, or the shared RPS profile finished, or an
-instance could not be created, or the run was cancelled. -/
-theorem C12_all_tokens_unless (v : Variant) (all : List Int) (evs : List Event) (s : St)
-    (hs : s = run v (St.init all) evs) :
-    s.phase = .done → s.started < all.length →
-      s.sawOutOfAmmo = true ∨ s.sawRpsFinished = true ∨ s.sawCreateFailed = true ∨ s.sawRunCancelled = true := by
-  intro hd hlt
-  have h := run_inv v all (St.init all) evs (Inv.init all)
+instance could not be created, or the run was cancelled — and the cause is real: "out of ammo" only after the provider
+refused an instance, "RPS profile finished" only for a shared profile. -/
+theorem C12_all_tokens_unless (c : Cfg) (all : List Int) (evs : List Event) (s : St)
+    (hs : s = run c (St.init all) evs) :
+    (s.phase = .done → s.started < all.length →
+      s.sawOutOfAmmo = true ∨ s.sawRpsFinished = true ∨ s.sawCreateFailed = true ∨ s.sawRunCancelled = true) ∧
+    (s.sawOutOfAmmo = true → s.ammoOut = true) ∧
+    (s.sawRpsFinished = true → c.perInstance = false) := by
+  have h := run_inv c all (St.init all) evs (Inv.init c all)
   rw [← hs] at h
-  rcases h.done hd with hnil | hc
-  · rcases h.consumed with hcons | ⟨_, hf⟩
-    · have : all.drop s.consumed = [] := by rw [← h.toks]; exact hnil
-      rw [List.drop_eq_nil_iff] at this
-      omega
-    · exact Or.inr (Or.inr (Or.inl hf))
+  refine ⟨?_, h.ammo, fun hr => (h.rpsShared (h.rps.mp hr)).1⟩
+  intro hd hlt
+  rcases h.done hd with ⟨hnil, hcons⟩ | hc
+  · have : all.drop s.consumed = [] := by rw [← h.toks]; exact hnil
+    rw [List.drop_eq_nil_iff] at this
+    omega
   · exact hc
+
+/-- Conversely nothing but those causes ends the loop early: while no cause has occurred, a `startInstances` that has
+returned has started exactly as many instances as the profile has tokens. -/
+theorem C12_all_tokens (c : Cfg) (all : List Int) (evs : List Event) :
+    let s := run c (St.init all) evs
+    s.phase = .done → s.sawOutOfAmmo = false → s.sawRpsFinished = false → s.sawCreateFailed = false →
+      s.sawRunCancelled = false → s.started = all.length ∧ ∀ cr ∈ s.created, cr.ok = true := by
+  intro s hd h1 h2 h3 h4
+  have hle := (C12_ids c all evs).2.2.2
+  have hu := (C12_all_tokens_unless c all evs s rfl).1 hd
+  have h := run_inv c all (St.init all) evs (Inv.init c all)
+  refine ⟨?_, h.failed h3⟩
+  by_cases hlt : s.started < all.length
+  · rcases hu hlt with a | a | a | a
+    · rw [h1] at a; cases a
+    · rw [h2] at a; cases a
+    · rw [h3] at a; cases a
+    · rw [h4] at a; cases a
+  · have : s.started ≤ all.length := hle
+    omega
+
+/-! ### the model is the source -/
+
+/-- The start loop of the transition system IS the regenerated `startInstances`: in every reachable state, what the loop
+has done (`newInstance` / `go …Run` actions with their contexts and ids, in order), its `started` counter, its `err`
+result and whether it has returned are what `Gen.Startup.startInstances` computes from the result of the synchronous
+`newInstance` and the answers of the `Wait` calls completed so far. -/
+theorem C12_refines_source (c : Cfg) (all : List Int) (evs : List Event) :
+    let s := run c (St.init all) evs
+    Gen.Startup.startInstances s.firstOk (s.waitLog.map K) =
+      ⟨s.acts, (s.started : Int), s.ret, s.phase == .done⟩ := by
+  have h := run_inv c all (St.init all) evs (Inv.init c all)
+  intro s
+  rw [Bridge.C12Startup.startInstances_eq]
+  exact h.seq
+
+/-- The cancel wiring of the model is the regenerated one: the start context is a child of the run context and
+`startInstances` is given (start, run); an out-of-ammo result cancels the START context only; the finish callback exists
+for a shared RPS schedule only, fires when `Next()` has no token or `Left()` is 0, and cancels the START context only;
+the pool cancels the run context itself only when all instances have finished; `runNewInstance` / `newInstance` hand
+context and id on unchanged (the id is what the gun's `Bind` sees as `GunDeps.InstanceID`). -/
+theorem C12_wiring_is_source :
+    Gen.Startup.startCtxParent = Ctx.run ∧ Gen.Startup.startInstancesCtxArgs = [Ctx.start, Ctx.run] ∧
+    Gen.Startup.waiterSchedule = "p.StartupSchedule" ∧
+    (∀ sf ce, Gen.Startup.onInstanceResult true sf ce = if sf then [] else [PoolAct.cancel Ctx.start]) ∧
+    (∀ sf ce, PoolAct.cancel Ctx.run ∉ Gen.Startup.onInstanceResult false sf ce) ∧
+    (∀ pi, Gen.Startup.callbackInstalled pi = !pi) ∧
+    (∀ cd, Gen.Startup.onSharedRpsFinish cd = if cd Ctx.start then [] else [PoolAct.cancel Ctx.start]) ∧
+    (∀ ok, Gen.Startup.callbackOnNext ok = !ok) ∧ (∀ l, Gen.Startup.callbackOnLeft l = (l == 0)) ∧
+    Gen.Startup.runCancelCallers = ["checkAllInstancesAreFinished"] ∧
+    (∀ cx id, Gen.Startup.runNewInstance cx id = (cx, id, cx)) ∧
+    (∀ cx id, Gen.Startup.newInstance cx id = (cx, id, id)) := by
+  refine ⟨rfl, rfl, rfl, ?_, ?_, Bridge.C12Startup.callbackInstalled_eq, Bridge.C12Startup.onSharedRpsFinish_eq,
+    fun _ => rfl, fun _ => rfl, rfl, fun _ _ => rfl, fun _ _ => rfl⟩
+  · intro sf ce; rw [Bridge.C12Startup.onInstanceResult_eq]; rfl
+  · intro sf ce; rw [Bridge.C12Startup.onInstanceResult_eq]
+    cases ce Ctx.run <;> simp
+
+/-- The exits of the regenerated `instance.Run` are the four `ExitReason`s: it returns the error of its loop body only as
+"out of ammo" after the provider refused it; it returns `ctx.Err()` only after a loop head at which its context (the
+run context, by `C12_refines_source` / `C12_wiring_is_source`) was done or its schedule had no token left; and while the
+context is not done, tokens are left and there is ammo, it keeps looping.  (`gun.Shoot` panicking is recovered into an
+error result.) -/
+theorem C12_instance_loop_is_source (its : List RunIter) :
+    (∀ e, Gen.Startup.instanceRun its = .body e → e = .outOfAmmo ∧ ∃ it ∈ its, it.ammoOk = false) ∧
+    (Gen.Startup.instanceRun its = .ctxErr → ∃ it ∈ its, it.ctxDone = true ∨ it.left = 0) ∧
+    ((∀ it ∈ its, it.ctxDone = false ∧ it.left ≠ 0 ∧ it.ammoOk = true) → Gen.Startup.instanceRun its = .running) ∧
+    Gen.Startup.recoversShootPanic = true := by
+  rw [Bridge.C12Startup.instanceRun_eq]
+  exact ⟨instRun_body its, instRun_ctxErr its, instRun_running its, rfl⟩
+
+/-- The `Wait` of the start loop (`Cfg.v = .fresh`, the current code) is the regenerated `(*Waiter).Wait`. -/
+theorem C12_wait_is_source (w : Waiter) (e : Env) :
+    Gen.Waiter.Wait w e = ((waitV .fresh w e).w, (waitV .fresh w e).ok) :=
+  Bridge.Waiter.Wait_eq w e
+
+/-! ### the profiles -/
 
 /-- `instance_step`: the REGENERATED `NewInstanceStep(from, to, step, d)`, started at 0, emits `from` tokens at 0 and then
 `step` tokens at m·d for m = 1, 2, … as long as `from + m·step ≤ to` (so never more than `to` in total when from ≤ to),
@@ -98,28 +258,66 @@ theorem C12_instance_step_shape (f t s d : ℤ) :
     constructor <;> nlinarith
   · constructor <;> (push_cast; omega)
 
+/-- composite of the documentation (docs/eng/startup.md): `once a`, then `const 0 ops` for d, then `once b` — `a` tokens
+at the start, `b` tokens exactly d later, nothing in between (regenerated `NewOnce` / `NewConst`). -/
+theorem C12_composite_example (a b d : ℤ) :
+    Proofs.C12Shape.toks (.composite [Gen.Schedule.NewOnce a, Gen.Schedule.NewConst 0 d, Gen.Schedule.NewOnce b]) 0 =
+      (List.replicate a.toNat 0 ++ List.replicate b.toNat d, d) := by
+  simp [Proofs.C12Shape.toks, Proofs.C12Shape.toksList, Proofs.C12Shape.toks_once, Proofs.C12Shape.toks_const0]
+
 /-! ### non-vacuity -/
 
-/-- startup tokens at 0, 1 s, 2 s; the loop starts two instances, ammo runs out, the third `Wait` sees the cancelled
-start context -/
+/-- startup tokens at 0, 1 s, 2 s; the loop starts two instances (the second after sleeping on its timer), ammo runs out
+while the third `Wait` is asleep, and that call is woken by the cancelled start context -/
 def demoToks : List Int := [0, 1000000000, 2000000000]
 def demoEvents : List Event :=
   [ .wait { tok := some 0, pick := 10, now := 20, arm := 20, ret := 30 } true 5,
     .wait { tok := some 1000000000, pick := 100, now := 110, arm := 120, ret := 1000000400 } true 7,
+    .timerFire,
+    .wait { tok := some 2000000000, pick := 1000000500, now := 1000000600, arm := 1000000600, ret := 2000000700 } true 0,
     .instanceExit 0 .ammoEnd,
     .outOfAmmoResult,
-    .wait { ctxDone := true, tok := some 2000000000, pick := 1000000500, now := 1000000600, arm := 1000000600, ret := 1000000700 } true 0 ]
+    .wakeCancelled ]
 
 example : EventsClockOK (St.init demoToks).waiter demoEvents := by decide
-example : (run .fresh (St.init demoToks) demoEvents).created =
+example : (run {} (St.init demoToks) demoEvents).created =
     [⟨0, 35, true⟩, ⟨1, 1000000407, true⟩] := by decide
-example : (run .fresh (St.init demoToks) demoEvents).phase = .done ∧
-    (run .fresh (St.init demoToks) demoEvents).started = 2 ∧
-    (run .fresh (St.init demoToks) demoEvents).sawOutOfAmmo = true ∧
-    (run .fresh (St.init demoToks) demoEvents).running = [1] := by decide
+example : (run {} (St.init demoToks) demoEvents).phase = .done ∧
+    (run {} (St.init demoToks) demoEvents).started = 2 ∧
+    (run {} (St.init demoToks) demoEvents).sawOutOfAmmo = true ∧
+    (run {} (St.init demoToks) demoEvents).running = [1] ∧
+    (run {} (St.init demoToks) demoEvents).consumed = 3 ∧
+    (run {} (St.init demoToks) demoEvents).waitLog = [true, true, false] := by decide
+/-- the same history against the regenerated source -/
+example : Gen.Startup.startInstances true ([true, true, false].map K) =
+    ⟨[.newInstance .run 0, .goRunFirst .run 0, .goRunNew .run 1], 2, .ofCtx .start, true⟩ := by decide
+/-- the timer may still win the final `select` after the start context is cancelled (both ready) -/
+example : (run {} (St.init demoToks) (demoEvents.dropLast ++ [.timerFire])).started = 3 := by decide
 /-- without any cause every token gets its instance -/
-example : (run .fresh (St.init [0, 5]) [ .wait { tok := some 0, now := 1, arm := 1, ret := 1 } true 0,
-    .wait { tok := some 5, now := 2, arm := 2, ret := 6 } true 0, .wait { tok := none, now := 7, arm := 7, ret := 7 } true 0 ]).started = 2 := by decide
+example : (run {} (St.init [0, 5]) [ .wait { tok := some 0, now := 1, arm := 1, ret := 1 } true 0,
+    .wait { tok := some 5, now := 2, arm := 2, ret := 6 } true 0, .timerFire,
+    .wait { tok := none, now := 7, arm := 7, ret := 7 } true 0 ]).started = 2 := by decide
+/-- an instance leaves the running set (hypotheses of `C12_never_reduced`) -/
+example : (0 : Nat) ∈ (run {} (St.init demoToks) (demoEvents.take 4)).running ∧
+    (0 : Nat) ∉ (step {} (run {} (St.init demoToks) (demoEvents.take 4)) (.instanceExit 0 .ammoEnd)).running := by decide
+/-- an exit with a context error is refused while the run context is alive, even after the start context is cancelled -/
+example : (step {} (run {} (St.init demoToks) demoEvents) (.instanceExit 1 .cancelled)).running = [1] ∧
+    (step {} (step {} (run {} (St.init demoToks) demoEvents) .runCancel) (.instanceExit 1 .cancelled)).running = [] := by
+  decide
+/-- the synchronous creation fails: nothing started, one token drawn, the loop is over -/
+example : (run {} (St.init demoToks) [ .wait { tok := some 0, now := 20, arm := 20, ret := 30 } false 0 ]).phase = .done ∧
+    (run {} (St.init demoToks) [ .wait { tok := some 0, now := 20, arm := 20, ret := 30 } false 0 ]).sawCreateFailed = true := by
+  decide
+/-- the shared RPS profile ends: start cancelled; with per-instance schedules the same event is not enabled -/
+example : (run {} (St.init demoToks) (demoEvents.take 1 ++ [.rpsFinished])).startCtxDone = true ∧
+    (run { perInstance := true } (St.init demoToks) (demoEvents.take 1 ++ [.rpsFinished])).startCtxDone = false := by decide
+/-- hypotheses of `C12_all_tokens`: a finished loop without any cause -/
+example : (run {} (St.init [0]) [ .wait { tok := some 0, now := 1, arm := 1, ret := 1 } true 0,
+    .wait { tok := none, now := 7, arm := 7, ret := 7 } true 0 ]).phase = .done := by decide
+/-- hypotheses of `C12_instance_loop_is_source`: out of ammo in the third pass; schedule drained; still running -/
+example : Gen.Startup.instanceRun [{}, {}, { ammoOk := false }] = .body .outOfAmmo := by decide
+example : Gen.Startup.instanceRun [{}, { left := 0 }] = .ctxErr := by decide
+example : Gen.Startup.instanceRun [{}, { waitOk := false }] = .running := by decide
 /-- instance_step 10 → 100 step 10 of docs/eng/startup.md: 10 at once, 9 more steps -/
 example : stepCount 10 100 10 = 9 := by decide
 example : (instanceStepToks 2 5 3 500).length = 5 ∧ instanceStepToks 2 5 3 500 = [0, 0, 500, 500, 500] := by decide
